@@ -291,24 +291,31 @@ def r4(idx, rep):
 
 
 def r5(idx, rep):
-    over = []
-    for cname, cis in idx.classes.items():
-        for ci in cis:
-            m = ci.methods.get("override_frozen")
-            if m is not None:
-                over.append((cname, m))
-    base = [(c, m) for c, m in over if c in ("Qualified", "Matchable", "Function")]
-    sub = sorted(c for c, m in over if c not in ("Qualified", "Matchable", "Function"))
-    rep.check(sub == ["Fail", "FailAll", "Last"], "R5", "override_frozen overriders",
-              f"override_frozen is overridden by {sub}; documented: exactly fail(), fail_all() and last() run on a frozen path", "csvpath/matching")
-    for c, m in over:
+    # which match components run on a frozen path: the answer of override_frozen() as each class resolves it (own or inherited), interpreted
+    fam = sorted({"Qualified"} | {c for c in idx.subclasses("Qualified") if len(idx.classes.get(c, [])) == 1})
+    answers = {}
+    defs = {}
+    for c in fam:
+        if not idx.has_method(c, "override_frozen"):
+            continue
+        m = idx.method(c, "override_frozen")
+        defs[id(m.node)] = m
+        ps = Interp(idx, types={"self": c}).run_all(m)
+        answers[c] = ps[0].result[1] if len(ps) == 1 and ps[0].result[0] == "return" and isinstance(ps[0].result[1], bool) else f"undecided {[p.result for p in ps][:2]}"
+    for m in defs.values():
         rep.analysed(m)
-        rets = [n for n in walk_no_nested(m.node) if isinstance(n, ast.Return)]
-        if c in ("Fail", "FailAll", "Last"):
-            rep.check(len(rets) == 1 and K.is_const(rets[0].value, True), "R5", f"{m.file}::{c}.override_frozen returns True", "", K.where(m, m.node))
-        else:
-            rep.check(len(rets) == 1 and K.is_const(rets[0].value, False), "R5", f"{m.file}::{c}.override_frozen base returns False", f"{[unparse(r.value) for r in rets]}", K.where(m, m.node))
-    rep.floor("R5", 2, "override_frozen definitions")
+    public = {c: v for c, v in answers.items() if not c.startswith("_")}
+    sub = sorted(c for c, v in public.items() if v is not False)
+    rep.check(sub == ["Fail", "FailAll", "Last"], "R5", "override_frozen overriders",
+              f"override_frozen answers other than False for {[(c, public[c]) for c in sub]}; documented: exactly fail(), fail_all() and last() run on a frozen path (True)", "csvpath/matching")
+    for c in ("Fail", "FailAll", "Last"):
+        m = idx.method(c, "override_frozen")
+        rep.check(answers.get(c) is True, "R5", f"{m.file}::{c}.override_frozen returns True", f"{answers.get(c)!r}", K.where(m, m.node))
+    for c in ("Qualified", "Matchable", "Function"):
+        if c in answers and "override_frozen" in idx.cls(c).methods:
+            m = idx.cls(c).methods["override_frozen"]
+            rep.check(answers[c] is False, "R5", f"{m.file}::{c}.override_frozen base returns False", f"{answers[c]!r}", K.where(m, m.node))
+    rep.check(len(public) >= 100, "R5", "override_frozen resolved for every match component class", f"only {len(public)} classes", "csvpath/matching")
     # do_frozen: True iff csvpath.is_frozen and not override_frozen()
     fd = idx.method("Qualified", "do_frozen")
     rep.analysed(fd)
